@@ -1243,7 +1243,7 @@ static int c17_cmd (char *line)
 {
   if (line[0] == 'u')
     return unit_cmd (line);
-  if (!strncmp (line, "prog ", 5) || !strncmp (line, "expect ", 7))
+  if (!strncmp (line, "prog ", 5) || !strncmp (line, "expect ", 7) || !strncmp (line, "incsearch ", 10))
     return 1;			/* dependency declaration: used by the model and the judge only */
   return sys_cmd (line);
 }
